@@ -552,9 +552,10 @@ impl Circle2 {
             // where we re-frame the problem as the point-to-circle tangent problem.
             let proxy = Circle2::new(other.x(), other.y(), other.r() - self.r());
             // p0 is in the negative half space and p1 is in the positive half space
-            let (p0, p1) = proxy.tangent_points_to(&self.center).unwrap();
-            let s0 = Segment2::try_new(self.center, p0).unwrap();
-            let s1 = Segment2::try_new(self.center, p1).unwrap();
+            // No outer tangents exist when one circle lies inside the other (or the tangent segment degenerates)
+            let (p0, p1) = proxy.tangent_points_to(&self.center)?;
+            let s0 = Segment2::try_new(self.center, p0).ok()?;
+            let s1 = Segment2::try_new(self.center, p1).ok()?;
 
             Some((s0.offsetted(-self.r()), s1.offsetted(self.r())))
         }
